@@ -157,7 +157,32 @@ impl Ctx {
     }
 }
 
+/// Scratch directory of this run (shared with its worker processes, removed by the top-level process).
+pub fn run_dir() -> PathBuf {
+    let tag = std::env::var("VCHECK_RUN_TAG").unwrap_or_else(|_| std::process::id().to_string());
+    std::env::temp_dir().join(format!("vcheck-run-{}", tag))
+}
+
+/// Called by the top-level process before anything else; returns true if this process owns the run dir.
+pub fn claim_run_dir() -> bool {
+    if std::env::var("VCHECK_RUN_TAG").is_ok() {
+        return false;
+    }
+    std::env::set_var("VCHECK_RUN_TAG", std::process::id().to_string());
+    let _ = std::fs::remove_dir_all(run_dir());
+    let _ = std::fs::create_dir_all(run_dir());
+    true
+}
+
+pub fn release_run_dir() {
+    let _ = std::env::set_current_dir("/");
+    let _ = std::fs::remove_dir_all(run_dir());
+}
+
 pub fn machinery(msg: &str) -> ! {
     eprintln!("MACHINERY: {}", msg);
+    if std::env::var("VCHECK_RUN_OWNER").map(|p| p == std::process::id().to_string()).unwrap_or(false) {
+        release_run_dir();
+    }
     std::process::exit(2)
 }
